@@ -17,6 +17,7 @@ HNext ==
                      \/ WFinish(w) /\ Act("w_finish", w)
                      \/ WUncount(w) /\ Act("w_uncount", w)
   \/ \E j \in Jobs : EnvRelease(j) /\ Act("release", j)
+  \/ \E j \in Jobs : EnvCrash(j) /\ Act("crash", j)
   \/ DropSend /\ Act("drop_send", 0)
   \/ DropJoined /\ Act("drop_joined", 0)
 
